@@ -849,7 +849,11 @@ func c01Channels(p *ana.Prog, r *ana.Result, fn *ssa.Function, refRaw ssa.Value,
 						good = false
 						return
 					}
-					if !strings.HasSuffix(listOf(c.Common().Args[1]), list) || !strings.HasSuffix(ana.AccessPath(c.Common().Args[3]), "cfg.SyncTimeout") {
+					tmo := c.Common().Args[3]
+					if o := outer(tmo); o != nil {
+						tmo = o // the timeout handed to a named worker at the go statement
+					}
+					if !strings.HasSuffix(listOf(c.Common().Args[1]), list) || !strings.HasSuffix(ana.AccessPath(tmo), "cfg.SyncTimeout") {
 						good = false
 						return
 					}
